@@ -120,6 +120,7 @@ func genWorld09(r *simcore.Rand) (spec *indexsim.WorldSpec, shape string, held [
 		cshape = timeShapes[r.Intn(len(timeShapes)-1)]
 	}
 	created := drawInstants(r, cshape, n)
+	typed := r.Bool(0.3)
 	const anchor = int64(300000) // inspected attributes are claimed before this (past) instant
 	for i := 0; i < n; i++ {
 		pn := g.pn()
@@ -132,6 +133,11 @@ func genWorld09(r *simcore.Rand) (spec *indexsim.WorldSpec, shape string, held [
 		g.add(indexsim.Item{K: "claim", S: 0, PN: pn, CT: "set", Attr: "title", Val: titleVals[r.Intn(len(titleVals))], D: next()})
 		if r.Bool(0.6) {
 			g.add(indexsim.Item{K: "claim", S: 0, PN: pn, CT: "add", Attr: "tag", Val: tagVals[r.Intn(3)], D: next()})
+		}
+		if typed {
+			// node types: queries for them may be planned over another
+			// candidate source than plain permanode queries
+			g.add(indexsim.Item{K: "claim", S: 0, PN: pn, CT: "set", Attr: "camliNodeType", Val: typeVals[r.Intn(len(typeVals))], D: next()})
 		}
 		explicit := r.Bool(0.5)
 		if !explicit && r.Bool(0.12) {
@@ -235,8 +241,10 @@ func genC09(tier string, run int, r *simcore.Rand) *harness.Plan {
 			c = &QC{CT: "permanode"}
 		case x < 45:
 			c = &QC{PN: &QPN{}}
-		case x < 66:
+		case x < 60:
 			c = &QC{PN: g.pn(2)}
+		case x < 66:
+			c = &QC{PN: &QPN{Attr: "camliNodeType", Val: typeVals[r.Intn(len(typeVals))]}}
 		case x < 76:
 			// fields next to Permanode: all non-zero fields must match, on
 			// every page. The prefix is that of a permanode of the world
